@@ -11,6 +11,10 @@ def run(ctx):
     tf = ctx.trace_path("sde")
     ctx.drive("sde_run", [tf, ctx.tier, ctx.seed])
     ctx.validate("Trace_Sde", "Trace_Sde.cfg", tf)
+    # the drifts / coefficients handed over to the coupled scheme by next_level (levels 1..2), driven on real chains
+    tf2 = ctx.trace_path("sdecoupling")
+    ctx.drive("coupling_run", [tf2, ctx.tier, ctx.seed, "sde-only"])
+    ctx.validate("Trace_Coupling", "Trace_Coupling.cfg", tf2, only={"CoarseIsPrevious"})
     ctx.assumptions += [
         "driver paths are scripted (the driver's own path simulation is C15 / C03): increments, times and chain drift in quarters, all values exact in sixteenths",
         "one-dimensional driver and underlying; a = Constant and DiagX; coupled pair at level 1",
